@@ -7,7 +7,7 @@ from ..core import AnalysisError, norm, walk_no_nested, Unfoldable
 
 META = {
     'design_ref': 'DESIGN.md §5 C16',
-    'technique': "abstract interpretation of globs_to_re on a basis of glob lists (all unit sequences up to length three over class representatives, pairs) with language equality between the produced pattern (under its flags and the consumer's match method) and the glob specification; loop-carried-state analysis of the character loop; interpretation of matches(), of the pattern cache over a history with failing translation, of find_files_paragraph for all truth assignments of three paragraphs whose Files texts are all different, pairwise equal or all equal; frame rule (no memo in the lookup path); every consumer of the compiled pattern asks it with the method the translation is judged under; matches() interpreted on a model pattern (reference regex of the statement) over eight pattern-list scenarios incl. illegal escapes before and after a covering pattern",
+    'technique': "abstract interpretation of globs_to_re on a basis of glob lists (all unit sequences up to length three over class representatives, pairs) with language equality between the produced pattern (under its flags and the consumer's match method) and the glob specification; loop-carried-state analysis of the character loop; interpretation of matches(), of the pattern cache over a history with failing translation, of find_files_paragraph for all truth assignments of three paragraphs whose Files texts are all different, pairwise equal or all equal; frame rule (no memo in the lookup path); every consumer of the compiled pattern asks it with the method the translation is judged under; matches() interpreted on a model pattern (reference regex of the statement) over eight pattern-list scenarios incl. illegal escapes before and after a covering pattern; error-construction rule for formats that are themselves built from data",
     'level_text': 'Static decision: the translation is character-wise (only an escaping backslash looks ahead), "*" denotes Σ*, "?" '
                   'denotes Σ (newline and "/" included), escapes denote their literal, other escapes raise the format error; with the way '
                   'the alternatives are joined and anchored, the consumer\'s match call accepts exactly the whole-name matches; the cache '
